@@ -106,4 +106,3 @@ func TestZeroTapeIsSequential(t *testing.T) {
 		t.Fatalf("zero tape preempted %d times: %s", res.Preemptions, b.String())
 	}
 }
-
